@@ -440,6 +440,10 @@ class World:
                 pm.injected.append(exc)
                 pm.fault_seen = True
                 raise exc
+            if end[0] == "cancelled":
+                self.label("worker:raises-CancelledError-itself")
+                tm.events.append("cancel@own")
+                raise asyncio.CancelledError()
             if wspec.get("retval") is not None:
                 # returned, not raised: of no concern to anybody but the caller of the function
                 self.label("worker:returns-exception-instance")
@@ -692,6 +696,26 @@ class World:
                     return gen()
             return Cursor()
         return gen()
+
+
+class FormatHandler(logging.Handler):
+    """Formats every record (as any real handler would) and drops it."""
+
+    def emit(self, record: logging.LogRecord) -> None:
+        try:
+            record.getMessage()
+        except Exception:
+            pass        # logging itself reports such errors on stderr and goes on; not this harness's subject
+
+
+def debug_logging() -> None:
+    log = logging.getLogger("asyncio_taskpool")
+    log.handlers[:] = [FormatHandler()]
+    log.propagate = False
+    log.setLevel(logging.DEBUG)
+    for name in list(logging.root.manager.loggerDict):
+        if name.startswith("asyncio_taskpool."):
+            logging.getLogger(name).setLevel(logging.NOTSET)
 
 
 def quiet_logging() -> None:
